@@ -6,6 +6,7 @@ import Rare.Model.C02RxParse
 import Rare.Model.C16
 import Rare.Drv.C01
 import Rare.Gen.C02
+import Rare.Gen.C12
 namespace Rare.Drv.C02
 open Rare Rare.C02 Rare.Proto
 
@@ -40,7 +41,10 @@ def ansOf : Except String KeyAns → String
 * `rxkey <pattern> <line> <key>` – `{key}` evaluated by the real extractor with the real regex matcher, the
   model side computing everything from the pattern text: parser, leftmost-first matcher, name table, `GetKey`;
 * `vis <bytes>` – `color.StrLen`'s visible bytes (count compared with the real `StrLen`);
-* `pipe …`, `regexpipe <n>` – pipeline ops shared with C01.
+* `pipe …`, `regexpipe <n>` – pipeline ops shared with C01;
+* `dissectpipe <n> <groups> <pattern> <input> <batch>` – the dissect matcher with one worker, all `n` matches held
+  until the end and re-read (their index slices come from the instance's `IntPool`, refilled every
+  `Gen.C12.poolSize g / (2g+2)` matches).
 -/
 def handle : List String → String
   | ["ctx", l, ix, ns, ni, src, ln, key] =>
@@ -138,6 +142,15 @@ def handle : List String → String
     | none => "bad-args"
   | "pipe" :: rest => Rare.Drv.C01.handle ("pipe" :: rest)
   | ["regexpipe", n, _, _, _, _] => s!"ok stable=1 n={n}"
+  | ["dissectpipe", n, g, _, _, _] =>
+    -- every held match still carries its own line's indices (C12: the pool hands out disjoint views and
+    -- never reuses a block); `crossed` = the worker's pool was refilled at least once, computed from the
+    -- source's pool size
+    match n.toNat?, g.toNat? with
+    | some n, some g =>
+      let perBlock := Gen.C12.poolSize g / (2 * g + 2)
+      s!"ok stable=1 n={n} crossed={if n > perBlock then 1 else 0}"
+    | _, _ => "bad-args"
   | _ => "bad-op"
 
 end Rare.Drv.C02
